@@ -339,6 +339,7 @@ impl From<Val> for bool {
 impl From<Val> for u64 {
     fn from(v: Val) -> Self {
         match v {
+            Val::Bool(b) => b as u64,
             Val::U8(u) => u as u64,
             Val::U16(u) => u as u64,
             Val::U32(u) => u as u64,
@@ -351,6 +352,7 @@ impl From<Val> for u64 {
 impl From<Val> for u32 {
     fn from(v: Val) -> Self {
         match v {
+            Val::Bool(b) => b as u32,
             Val::U8(u) => u as u32,
             Val::U16(u) => u as u32,
             Val::U32(u) => u,
@@ -363,6 +365,7 @@ impl From<Val> for u32 {
 impl From<Val> for u16 {
     fn from(v: Val) -> Self {
         match v {
+            Val::Bool(b) => b as u16,
             Val::U8(u) => u as u16,
             Val::U16(u) => u,
             Val::U32(u) => u as u16,
@@ -375,6 +378,7 @@ impl From<Val> for u16 {
 impl From<Val> for u8 {
     fn from(v: Val) -> Self {
         match v {
+            Val::Bool(b) => b as u8,
             Val::U8(u) => u,
             Val::U16(u) => u as u8,
             Val::U32(u) => u as u8,
@@ -491,8 +495,7 @@ impl From<Val> for Option<Buf> {
     fn from(v: Val) -> Self {
         match v {
             Val::Nil => None,
-            Val::Str(s) => Some(s),
-            _ => unreachable!(),
+            _ => Some(Buf::from(v)),
         }
     }
 }
